@@ -111,6 +111,11 @@ def check(prop, tier, seed):
             scripts.append({"tid": tid, "kind": "dispatch", "threads": th, "rounds": 6,
                             "systems": [{"shape": rng.choice([0, 2, 11, 6]), "deps": [], "spin": rng.choice([1, 2, 5])} for _ in range(8)]})
             tid += 1
+            # a system that leaves a deferred deletion pending, then readers of one storage side by side
+            scripts.append({"tid": tid, "kind": "dispatch", "threads": th, "rounds": 4,
+                            "systems": [{"shape": 6, "deps": [], "spin": 1}]
+                                       + [{"shape": rng.choice([0, 2]), "deps": [0], "spin": rng.choice([2, 5])} for _ in range(6)]})
+            tid += 1
     workdir = os.path.join(C.OUT, "work", "%s_%d" % (key, os.getpid()))
     C.sh(["rm", "-rf", workdir])
     r = C.exec_and_validate("dispatch", scripts, workdir, "Dispatch_Trace.tla", "Dispatch_Trace.cfg", events_per_chunk=40)
